@@ -180,7 +180,49 @@ func mapContract(c *Check) {
 		case "Len":
 			c.OK("map-contract", inst, pos, "size only")
 		default:
-			c.Unk("map-contract", inst, pos, "method "+name+" of the locked map has no contract in the checker; calls of it cannot be interpreted")
+			// a method that only reads: no update or delete of the inner
+			// map, no store into the struct, no call of a mutating method
+			// (a snapshot of the keys, a size, a membership test)
+			readOnly := true
+			allInstrs(fn, func(in ssa.Instruction) {
+				switch x := in.(type) {
+				case *ssa.MapUpdate:
+					if isInner(x.Map) {
+						readOnly = false
+					}
+				case *ssa.Store:
+					if fa, isFA := x.Addr.(*ssa.FieldAddr); isFA && fa.X == ssa.Value(recv) {
+						readOnly = false
+					}
+				case ssa.CallInstruction:
+					cc := x.Common()
+					if b, isB := cc.Value.(*ssa.Builtin); isB && b.Name() == "delete" {
+						readOnly = false
+					}
+					if sc := staticCallee(cc); sc != nil {
+						if nm, isM := lw.mapMethod(sc); isM && nm != "Len" && nm != "Has" && nm != "Load" {
+							readOnly = false
+						}
+					}
+				}
+			})
+			// ... and is not used by the correlator (its effect on a delivery would have to be known)
+			usedByTracker := false
+			for _, g := range p.AllRepoFuncs() {
+				if !strings.HasPrefix(FuncPkgPath(g), ModPath+"/processors/auditd") {
+					continue
+				}
+				for _, ci := range callsIn(g) {
+					if sc := staticCallee(ci.Common()); sc != nil && (sc == fn || sc.Origin() == fn || (fn.Origin() != nil && sc.Origin() == fn.Origin())) {
+						usedByTracker = true
+					}
+				}
+			}
+			if readOnly && !usedByTracker {
+				c.OK("map-contract", inst, pos, "read-only method not used by the correlator")
+			} else {
+				c.Unk("map-contract", inst, pos, "method "+name+" of the locked map has no contract in the checker; calls of it cannot be interpreted")
+			}
 		}
 	}
 	c.Floor("locked-map method instantiations examined", 6, n)
